@@ -59,6 +59,9 @@ type Project struct {
 	flags   map[string]*Flag
 	modules map[string]*module
 	targets map[string]*runTarget
+
+	// indexOnly is true if the targets were read from the index file rather than from the build files.
+	indexOnly bool
 }
 
 type LoadOptions struct {
@@ -119,9 +122,11 @@ func (proj *Project) load(index bool) (err error) {
 
 	if index {
 		if err := proj.loadIndex(); err == nil {
+			proj.indexOnly = true
 			return nil
 		}
 	}
+	proj.indexOnly = false
 
 	if err := os.MkdirAll(proj.temp, 0755); err != nil {
 		return err
@@ -280,6 +285,14 @@ func (proj *Project) REPLEnv(stdout io.Writer, pkg *label.Label) (thread *starla
 }
 
 func (proj *Project) GC() error {
+	// The index lists the targets of the last full load, which are not necessarily the targets that
+	// exist now. Collect against the build files.
+	if proj.indexOnly {
+		if err := proj.Reload(); err != nil {
+			return err
+		}
+	}
+
 	// collect all of the info paths referenced by this project
 	paths := map[string]struct{}{}
 
